@@ -117,6 +117,9 @@ fn shapes(tier: Tier) -> Vec<(String, Vec<Vec<Call>>)> {
         ("resolve-vs-typed-page".into(), vec![vec![(3, 0)], vec![(3, 3)]]),
         ("get_page-vs-get_page".into(), vec![vec![(0, 11)], vec![(2, 11)]]),
         ("leaf-page-typed-twice".into(), vec![vec![(7, 3)], vec![(8, 3)]]),
+        // a thread that loads the same key again while another thread's load of it is still in flight
+        ("same-key-twice-vs-once".into(), vec![vec![(5, 10), (5, 10)], vec![(5, 10)]]),
+        ("same-key-twice-vs-twice-other-type".into(), vec![vec![(5, 10), (5, 1)], vec![(5, 1), (5, 10)]]),
     ];
     if tier == Tier::Thorough {
         v.push(("three-threads-mixed".into(), vec![vec![(0, 12), (5, 10)], vec![(2, 12), (6, 8)], vec![(5, 1), (1, 12)]]));
